@@ -3255,7 +3255,7 @@ impl<'a, R: FileManager> FrontendCtx<'a, R> {
             (
                 RuntypeKind::Object {
                     vs,
-                    indexed_properties: _,
+                    indexed_properties,
                 },
                 other,
             ) => {
@@ -3279,6 +3279,9 @@ impl<'a, R: FileManager> FrontendCtx<'a, R> {
                                         acc.push(r.clone());
                                     }
                                 }
+                            } else if indexed_properties.is_some() {
+                                // an index signature may answer for this key: decided semantically
+                                return Ok(None);
                             } else {
                                 // noop (same as pushing never)
                             }
